@@ -1,6 +1,7 @@
 (** C13 - Client and server always agree on pixel format and encodings. *)
 From Coq Require Import ZArith List Bool Lia.
 From VD Require Import Base.Bytes Base.PixFmt Base.Text Gen.Tables Model.Engine Model.ClientMsgs Model.Rfb Model.Image.
+From VD Require Import Gen.Exprs Proofs.ExprTie.
 From VD Require Import Proofs.FormatP.
 Import ListNotations.
 Open Scope Z_scope.
@@ -47,3 +48,10 @@ Theorem C13_channels : forall p m v,
     [(chan v (pf_rshift p) (pf_rmax p), chan v (pf_gshift p) (pf_gmax p), chan v (pf_bshift p) (pf_bmax p))].
 Proof. exact channels. Qed.
 Print Assumptions C13_channels.
+
+(** The list of the model is the source's own: [gen_encodings] is regenerated from vncConnectionMade on every run
+    (gen/exprs.py: the preferred encoding first, then one conditional append per option, in the source's order). *)
+Theorem C13_encodings_are_source : forall c,
+  encodings_of c = gen_encodings (c_encoding c) (c_pseudocursor c) (c_nocursor c) (c_pseudodesktop c) (c_last_rect c) (c_qemu c).
+Proof. exact encodings_are_source. Qed.
+Print Assumptions C13_encodings_are_source.
